@@ -251,7 +251,7 @@ def main():
             except UnicodeDecodeError:
                 text = data.decode('latin-1')
             stats['texts'] += 1
-            if stats['texts'] % 500 == 0:
+            if stats['texts'] % 100 == 0:
                 stats['counters'] = {k: v for k, v in list(cctx.counters.items())[:40]}
                 json.dump(stats, open(os.path.join(work, 'stats.json'), 'w'))
                 cctx.nontrivial.clear()
